@@ -22,6 +22,7 @@ import (
 	"github.com/gr33nbl00d/caddy-revocation-validator/core"
 	"github.com/gr33nbl00d/caddy-revocation-validator/crl"
 	"go.uber.org/zap"
+	"go.uber.org/zap/zapcore"
 )
 
 // ---------------------------------------------------------------- scratch
@@ -373,6 +374,8 @@ type CRLOpts struct {
 	Watchdog   time.Duration // for Provision (default DefaultWatchdog)
 	// OmitDefaults: options whose value is the documented default are rendered as if they had been omitted
 	OmitDefaults bool
+	// DebugLog: the code under test gets a logger with DEBUG enabled (its output is discarded)
+	DebugLog bool
 }
 
 // Config renders the options as the parsed config struct.
@@ -430,6 +433,13 @@ func (o CRLOpts) Config() *config.CRLConfig {
 	return cfg
 }
 
+// DebugDiscardLogger returns a logger on which every level is enabled and whose output goes nowhere: code that does
+// extra work only "when debug logging is on" does that work.
+func DebugDiscardLogger() *zap.Logger {
+	enc := zapcore.NewJSONEncoder(zap.NewProductionEncoderConfig())
+	return zap.New(zapcore.NewCore(enc, zapcore.AddSync(io.Discard), zapcore.DebugLevel))
+}
+
 // Logger returns the logger used for code under test (nop unless VERIF_NOISY).
 func Logger() *zap.Logger {
 	if os.Getenv("VERIF_NOISY") != "" {
@@ -447,7 +457,11 @@ func NewChecker(o CRLOpts) (*crl.CRLRevocationChecker, error) {
 	if wdog == 0 {
 		wdog = DefaultWatchdog
 	}
-	r, werr := Call("CRLRevocationChecker.Provision", wdog, func() res { return res{c.Provision(o.Config(), Logger())} })
+	lg := Logger()
+	if o.DebugLog {
+		lg = DebugDiscardLogger()
+	}
+	r, werr := Call("CRLRevocationChecker.Provision", wdog, func() res { return res{c.Provision(o.Config(), lg)} })
 	if werr != nil {
 		return nil, werr
 	}
